@@ -14,7 +14,7 @@ from reactivex import operators as ops
 from reactivex.disposable import Disposable
 
 from vlib.core import FAIL, OK, SKIP, Check, HarnessError
-from vlib.lab import BudgetExceeded, Lab, SpinGuard
+from vlib.lab import BudgetExceeded, Lab, LoggedCold, SpinGuard
 from vlib.pipes import OPS, Builder, _kind_after, pipelines
 from vlib.values import Tagged, val
 
@@ -34,6 +34,13 @@ RULE = (
     "logged after the failure (except a downstream do_action.on_error / finally_action, callbacks still running in the very scheduler "
     "action in which the failure happened, and callbacks driven by a source whose subscription could not be closed yet), every probe trace matches N*(E|C)?, "
     "and no logged source subscription (or `using` resource) stays open. Non-trivial: the armed invocation was reached. "
+    "Check `nested` (enumerated, no scheduler argument, no virtual time): a subscribe-time callback of an INNER sequence (multicast "
+    "subject_factory/mapper, publish/replay mapper, create's subscribe function; using/defer factories as controls) is armed at its "
+    "k-th call (k in 0..2) while the inner sequence is subscribed by flat_map/concat_map/switch_map/merge_all/switch_latest/"
+    "merge(max_concurrent=1)/catch/concat synchronously inside another subscribe() on the current-thread trampoline, under an emitter that "
+    "does not catch (synchronous source, BehaviorSubject replaying on subscribe, Subject/BehaviorSubject pushed from plain code or from a "
+    "trampoline action; subscribe() itself called directly or from a trampoline action): same oracle, plus values pushed after the failure "
+    "must reach no callback and the subject must have no observer left. "
     "Distinct = distinct case JSON. The 'reach' check fails (harness error) if some (form, slot) is reached in none of its cases."
 )
 ASSUMPTIONS = [
@@ -651,6 +658,255 @@ def _reach(case):
 
 
 # ---------------------------------------------------------------------------------------
+# nested subscriptions on the current-thread trampoline (no scheduler argument, no virtual time)
+#
+# A callback that runs at subscribe time of an INNER sequence (multicast subject_factory/mapper, publish/replay mapper, a
+# create() subscribe function; using/defer as controls with a guard of their own) is armed; the inner sequence is subscribed by
+# a linking operator synchronously inside another subscribe() on the same thread, while an emitter that does not catch
+# (synchronous source, BehaviorSubject replaying on subscribe, Subject pushed from a trampoline action) is on the stack.
+
+N_VALS = ["i1", "sa", "none"]
+N_MODES = {
+    # outer emitter, where subscribe() is called, how later values are pushed
+    "create/direct": ("create", "direct", None),
+    "create/trampoline": ("create", "trampoline", None),
+    "behavior/direct/push-idle": ("behavior", "direct", "idle"),
+    "behavior/direct/push-trampoline": ("behavior", "direct", "trampoline"),
+    "behavior/trampoline/push-idle": ("behavior", "trampoline", "idle"),
+    "subject/direct/push-idle": ("subject", "direct", "idle"),
+    "subject/direct/push-trampoline": ("subject", "direct", "trampoline"),
+}
+N_LINKS = ("flat_map", "concat_map", "switch_map", "map+merge_all", "map+switch_latest", "map+merge_max1", "catch", "concat")
+N_INNERS = {
+    "multicast": ("subject_factory", "mapper"),
+    "publish": ("mapper",),
+    "replay": ("mapper",),
+    "create": ("subscribe",),
+    "using": ("resource_factory", "observable_factory"),  # control: guarded by using itself
+    "defer": ("factory",),  # control: guarded by defer itself
+}
+
+
+class _SyncSource(LoggedCold):
+    """Synchronous cold source (everything is emitted inside subscribe) that records what its emitting loop gets to see."""
+
+    def __init__(self, lab, timeline, name):
+        super().__init__(lab, timeline, name, sync=True)
+        self.seen = []
+
+    def _emit(self, observer, kind, payload):
+        try:
+            super()._emit(observer, kind, payload)
+        except Exception as e:  # noqa
+            self.seen.append(e)
+            raise
+
+
+def _nested_inner(lab, B, ctx, kind):
+    """-> function value -> inner observable; the subscribe-time callbacks are created once (k counts over all inner subscriptions)."""
+    from reactivex.subject import Subject as _Subject
+
+    def base(x):
+        s = lab.cold([[0, "N", "i2"], [0, "C", None]], sync=True)
+        return s
+
+    if kind == "multicast":
+        sf = B.fn("subject_factory", lambda sch=None: _Subject())
+        mp = B.fn("mapper", lambda c: c)
+        return lambda x: base(x).pipe(ops.multicast(subject_factory=sf, mapper=mp))
+    if kind == "publish":
+        mp = B.fn("mapper", lambda c: c)
+        return lambda x: base(x).pipe(ops.publish(mp))
+    if kind == "replay":
+        mp = B.fn("mapper", lambda c: c)
+        return lambda x: base(x).pipe(ops.replay(buffer_size=1, mapper=mp))
+    if kind == "create":
+
+        def sub(observer, scheduler=None):
+            observer.on_next("created")
+            observer.on_completed()
+            return Disposable()
+
+        f = B.fn("subscribe", sub)
+        return lambda x: reactivex.create(f)
+    if kind == "using":
+        rf = B.fn("resource_factory", lambda: _Res(ctx))
+        of = B.fn("observable_factory", lambda r: base(None))
+        return lambda x: reactivex.using(rf, of)
+    if kind == "defer":
+        f = B.fn("factory", lambda sch: base(None))
+        return lambda x: reactivex.defer(f)
+    raise HarnessError(kind)
+
+
+def _nested_link(B, link, inner_of):
+    m = B.fn("link", lambda x: inner_of(x))
+    if link in ("flat_map", "concat_map", "switch_map"):
+        return [getattr(ops, link)(m)]
+    if link == "map+merge_all":
+        return [ops.map(m), ops.merge_all()]
+    if link == "map+switch_latest":
+        return [ops.map(m), ops.switch_latest()]
+    if link == "map+merge_max1":
+        return [ops.map(m), ops.merge(max_concurrent=1)]
+    if link == "catch":
+        return [ops.catch(lambda e, src: m(e))]
+    if link == "concat":
+        return [ops.concat(_Lazy(m))]
+    raise HarnessError(link)
+
+
+class _Lazy(Observable):
+    """Plain observable that builds the inner sequence when subscribed (no guard of its own beyond Observable.subscribe)."""
+
+    def __init__(self, make):
+        super().__init__()
+        self.make = make
+
+    def _subscribe_core(self, observer, scheduler=None):
+        return self.make(None).subscribe(observer, scheduler=scheduler)
+
+
+def _run_nested(case):
+    from reactivex.scheduler import CurrentThreadScheduler
+    from reactivex.subject import BehaviorSubject as _Behavior
+    from reactivex.subject import Subject as _Subject
+
+    outer_kind, where, push = N_MODES[case["mode"]]
+    link, inner_kind, slot, k = case["link"], case["inner"], case["slot"], case["k"]
+    label = f"N:{inner_kind}.{slot}"
+    cls = [f"mode:{case['mode']}", f"link:{link}", f"k:{k}"]
+    if inner_kind in ("using", "defer"):
+        cls.append("control-own-guard")
+    cts = CurrentThreadScheduler.singleton()
+    if not cts.get_trampoline().idle():
+        raise HarnessError("current-thread trampoline not idle at case start")
+    lab = _Lab()
+    ctx = {}
+    B = Builder(lab, prefix="n.")
+    B.cur = inner_kind
+    tslot = B.slot(slot)
+    inner_of = _nested_inner(lab, B, ctx, inner_kind)
+    B.cur = "link"
+    errs = link == "catch"  # the outer sequence must fail for catch to subscribe its handler's result
+    vals = N_VALS[:1] if link in ("catch", "concat") else N_VALS
+    seen = []  # exceptions that reached an emitter
+    subject = None
+    if outer_kind == "create":
+        tl = [[0, "N", v] for v in vals] + [[0, "E", "e1"] if errs else [0, "C", None]]
+        outer = _SyncSource(lab, tl, "outer")
+        lab.sources.append(outer)
+        pushes = []
+    else:
+        subject = _Behavior(val(vals[0])) if outer_kind == "behavior" else _Subject()
+        outer = subject
+        rest = vals[1:] if outer_kind == "behavior" else vals
+        pushes = [("N", v) for v in rest] + [("E", None) if errs else ("C", None)]
+    o = outer.pipe(*_nested_link(B, link, inner_of))
+    p = lab.probe("p")
+    lab.arm = {tslot: {k}}
+    escaped = []
+
+    def guarded(f, who):
+        try:
+            f()
+        except (BudgetExceeded, SpinGuard, RecursionError):
+            raise
+        except Exception as e:  # noqa
+            escaped.append((who, e))
+
+    def do_subscribe():
+        p.subscribe(o, scheduler=None)
+
+    if where == "direct":
+        guarded(do_subscribe, "subscribe()")
+    else:
+        guarded(lambda: cts.schedule(lambda s, st=None: do_subscribe()), "trampoline action calling subscribe()")
+    quiet_from = [None]
+
+    def do_pushes():
+        for kind, v in pushes:
+            if lab.injected and quiet_from[0] is None:
+                quiet_from[0] = lab.seq  # the failure is complete and every call has returned: from here on silence is required
+            try:
+                if kind == "N":
+                    subject.on_next(val(v))
+                elif kind == "E":
+                    subject.on_error(Tagged("e1"))
+                else:
+                    subject.on_completed()
+            except (BudgetExceeded, SpinGuard, RecursionError):
+                raise
+            except Exception as e:  # noqa
+                seen.append(e)
+
+    if pushes:
+        if push == "trampoline":
+            guarded(lambda: cts.schedule(lambda s, st=None: do_pushes()), "trampoline action pushing values")
+        else:
+            do_pushes()
+    if not cts.get_trampoline().idle():
+        raise HarnessError("current-thread trampoline not idle at case end")
+    if outer_kind == "create":
+        seen.extend(outer.seen)
+    tag = f"inj:{tslot}:{k}"
+    detail = f"case={case} trace={p.trace()} escaped={escaped!r} emitter_saw={seen!r}"
+
+    def is_inj(e):
+        return isinstance(e, Tagged) and e.tag == tag
+
+    for who, e in escaped:
+        if not is_inj(e) and not lab.injected:
+            raise e
+    for e in seen:
+        if not is_inj(e) and not lab.injected:
+            raise e
+    if not lab.injected:
+        return OK(False, cls + ["unreached", "unreached:" + label])
+    cls += ["reached", "reached:" + label]
+    # (a) nothing escapes subscribe() / the emitter
+    if escaped:
+        who, e = escaped[0]
+        return FAIL(f"nested-escape-subscribe|{label}", f"{e!r} propagated out of the {who}; {detail}", classes=cls)
+    if seen:
+        return FAIL(f"nested-escape-emitter|{label}", f"{seen[0]!r} propagated into the emitter of the notification that caused the inner subscription; {detail}", classes=cls)
+    for q in lab.probes:
+        ok, msg = q.grammar_ok()
+        if not ok:
+            return FAIL(f"grammar|{label}", f"{msg}; {detail}", classes=cls)
+    # (b)
+    term = p.terminal()
+    if term is None or term[1] != "E" or term[2] != ["exc", tag]:
+        return FAIL(f"nested-wrong-terminal|{label}", f"expected on_error({tag}), got {term and term[:3]}; {detail}", classes=cls)
+    # (c) the pipeline stops and releases
+    if quiet_from[0] is not None:
+        later = [e for e in lab.cb_log if e[1] > quiet_from[0]]
+        if later:
+            return FAIL(f"nested-callback-after-failure|{label}", f"values pushed after the failure still reach user callbacks: {later[:3]}; {detail}", classes=cls)
+        cls.append("pushed-after-failure")
+    if subject is not None and getattr(subject, "observers", None):
+        return FAIL(f"nested-subscription-leak|{label}", f"{len(subject.observers)} observer(s) still attached to the source subject; {detail}", classes=cls)
+    opened = lab.open_subscriptions()
+    if opened:
+        return FAIL(f"nested-subscription-leak|{label}", f"open source subscriptions at the end: {opened}; {detail}", classes=cls)
+    leaked = [i for i, r in enumerate(ctx.get("resources", [])) if not r.closed]
+    if leaked:
+        return FAIL(f"nested-resource-leak|{label}", f"`using` resources not disposed: {leaked}; {detail}", classes=cls)
+    return OK(True, cls)
+
+
+def _nested_cases(tier):
+    for mode in N_MODES:
+        for link in N_LINKS:
+            for inner, slots in N_INNERS.items():
+                for slot in slots:
+                    for k in (0, 1, 2):
+                        if k > 0 and link in ("catch", "concat"):
+                            continue  # these links subscribe exactly one inner sequence
+                        yield {"mode": mode, "link": link, "inner": inner, "slot": slot, "k": k}
+
+
+# ---------------------------------------------------------------------------------------
 # thorough: embedded in random pipelines
 
 # operators declared out="same" that nevertheless inject foreign elements (defaults, initial values) into the stream:
@@ -747,6 +1003,7 @@ def checks(tier):
     cs = [
         Check("enum", _run, cases=_enum, shards={"quick": 4, "thorough": 16}, exhaustive=True),
         Check("reach", _reach, cases=_reach_cases, shards={"quick": 4, "thorough": 16}, exhaustive=True),
+        Check("nested", _run_nested, cases=_nested_cases, shards={"quick": 4, "thorough": 16}, exhaustive=True),
     ]
     cs.append(Check("embedded", _run, strategy=_embedded(), examples={"quick": 1600, "thorough": 16 * 20000}, shards={"quick": 4, "thorough": 16}))
     return cs
